@@ -48,12 +48,15 @@ type LinearState struct {
 	remHook RemHookFn
 }
 
-func (s *LinearState) withPrivilege(ctx *Context) {
-	ctx.grantPrivilege("hook")
+// withPrivilege: see IndexedState.withPrivilege.
+func (s *LinearState) withPrivilege(ctx *Context) *Context {
+	hctx := ctx.SubContext()
+	hctx.grantPrivilege("hook")
+	return hctx
 }
 
-func (s *LinearState) withoutPrivilege(ctx *Context) {
-	ctx.revokePrivilege()
+func (s *LinearState) withoutPrivilege(hctx *Context) {
+	hctx.revokePrivilege()
 }
 
 func (s *LinearState) slock(ctx *Context, read bool) {
